@@ -1,8 +1,8 @@
 SPECIFICATION Spec
 CONSTANTS
   MaxLen = 2
-  SortedLen = 3
-  NoForeignLen = 0
+  SortedLen = 0
+  NoForeignLen = 3
   OtherLen = 2
   ClipValidator = "after"
 CONSTRAINT Export
